@@ -165,6 +165,16 @@ CLAIMS = {
   design="DESIGN.md §4 C13",
   note="Socket probes of find_src_addr are contract stubs; libc qsort replaced by a reference sort; end-to-end "
        "ares_getaddrinfo with hosts file outside the claim. Open known finding sort_compare_nontransitive."),
+ "C11": dict(
+  text="Bounded model checking (CBMC) of the LOCKING DISCIPLINE and of two-thread slices by context-bounded "
+       "sequentialisation (thread B's whole call runs at a synchronisation point of thread A): every public entry point "
+       "touches shared channel state only with the channel lock held and releases it on every path; two concurrent "
+       "ares_reinit callers and ares_reinit vs ares_destroy (thread handle never overwritten or missed while unjoined, no "
+       "join-under-lock deadlock); ares_queue_wait_empty returns success only with an empty queue under the lock, for all "
+       "wake-up patterns and timeouts; the event thread never holds its mutex while calling into the channel.",
+  design="DESIGN.md §4 C11",
+  note="NOT claimed: data-race freedom of fields touched inside internal functions/containers, the OS primitives, more than "
+       "two threads or two context switches per pair of calls, wall-clock liveness. Locks are ghost depth counters."),
 }
 NA = {}
 for i in range(1, 21):
